@@ -36,8 +36,7 @@ def handle (ws : List String) : Option String :=
   | ["amap", nargs, ps] =>
     match nargs.toNat? with
     | some n =>
-      some (mapTok (modelMap (listOf ps) n) ++ " " ++ mapTok (specMap (listOf ps) n) ++ " " ++
-            (if hasDup (listOf ps) then "dup_param_map" else "-"))
+      some (mapTok (modelMap (listOf ps) n) ++ " " ++ mapTok (specMap (listOf ps) n) ++ " -")
     | none => some "bad-op"
   | _ => none
 
